@@ -165,8 +165,9 @@ class Deseasonalizer(_SeriesToSeriesTransformer):
         self : an instance of self
         """
         self.check_is_fitted()
-        z = check_series(Z, enforce_univariate=True)
-        self._set_y_index(z)
+        check_series(Z, enforce_univariate=True, allow_empty=True)
+        # the fitted seasonal components stay aligned with the start of the
+        # training series, which remains the phase origin for `transform`
         return self
 
 
